@@ -274,7 +274,7 @@ Qed.
 (* ---- types.go makeNullableSchema -------------------------------------------------------------- *)
 Lemma add_null_type_fine n : fine ok n -> fine ok (add_null_type n).
 Proof.
-  intros [Hg [Hs Hm]]. destruct n as [x|x|x|d|b|l|kv]; try (split; [assumption|split; assumption]).
+  intros [Hg [Hs Hm]]. destruct n as [x|x|x|d|b| |l|kv]; try (split; [assumption|split; assumption]).
   cbn [add_null_type].
   set (g := fun e : str * ynode =>
               if str_eqb (fst e) (s "type")
@@ -289,7 +289,7 @@ Proof.
     unfold g in Ht. destruct (str_eqb (fst e) (s "type")) eqn:Et; [|exact Ht].
     apply str_eqb_eq in Et. destruct e as [k x]. cbn [fst snd] in *. subst k.
     rewrite entry_refs_plainkey in Ht |- * by reflexivity.
-    destruct x as [x|x|x|d|b|l|kv']; try exact Ht.
+    destruct x as [x|x|x|d|b| |l|kv']; try exact Ht.
     cbn [refs_of] in Ht |- *. rewrite flat_map_app in Ht. cbn [refs_of flat_map app] in Ht. now rewrite app_nil_r in Ht.
   - unfold mapping_targets in Hm |- *.
     assert (E : find (fun e => str_eqb (fst e) (s "mapping")) (map g kv) = find (fun e => str_eqb (fst e) (s "mapping")) kv).
@@ -300,12 +300,43 @@ Proof.
     rewrite E. exact Hm.
 Qed.
 
+Lemma add_null_enum_fine n : fine ok n -> fine ok (add_null_enum n).
+Proof.
+  intros [Hg [Hs Hm]]. destruct n as [x|x|x|d|b| |l|kv]; try (split; [assumption|split; assumption]).
+  cbn [add_null_enum].
+  set (g := fun e : str * ynode =>
+              if str_eqb (fst e) (s "enum")
+              then (fst e, match snd e with
+                           | YSeq (a :: l) => YSeq ((a :: l) ++ [YNull])
+                           | x => x end)
+              else e).
+  split; [|split; [discriminate|]].
+  - intros t Ht. apply Hg. cbn [refs_of] in Ht |- *. apply in_flat_map in Ht as [e' [He' Ht]].
+    apply in_map_iff in He' as [e [<- He]]. apply in_flat_map. exists e. split; [assumption|].
+    unfold g in Ht. destruct (str_eqb (fst e) (s "enum")) eqn:Et; [|exact Ht].
+    apply str_eqb_eq in Et. destruct e as [k x]. cbn [fst snd] in *. subst k.
+    rewrite entry_refs_plainkey in Ht |- * by reflexivity.
+    destruct x as [x|x|x|d|b| |l|kv']; try exact Ht.
+    destruct l as [|a l]; [exact Ht|].
+    cbn [refs_of] in Ht |- *. rewrite flat_map_app in Ht. cbn [refs_of flat_map app] in Ht. now rewrite app_nil_r in Ht.
+  - unfold mapping_targets in Hm |- *.
+    assert (E : find (fun e => str_eqb (fst e) (s "mapping")) (map g kv) = find (fun e => str_eqb (fst e) (s "mapping")) kv).
+    { clear. induction kv as [|e kv IH]; [reflexivity|]. cbn [map find].
+      assert (Hf : fst (g e) = fst e) by (unfold g; destruct (str_eqb (fst e) (s "enum")); reflexivity).
+      rewrite Hf. destruct (str_eqb (fst e) (s "mapping")) eqn:Em; [|exact IH].
+      apply str_eqb_eq in Em. unfold g. rewrite Em. reflexivity. }
+    rewrite E. exact Hm.
+Qed.
+
+Lemma make_nullable_fine n : fine ok n -> fine ok (make_nullable n).
+Proof. intros H. unfold make_nullable. now apply add_null_enum_fine, add_null_type_fine. Qed.
+
 (* ---- types.go convertField -------------------------------------------------------------------- *)
 Lemma convert_field_fine mn f : kind_ok (f_kind f) -> fine ok (convert_field sc sd mn f).
 Proof.
   intros Hk. pose proof (convert_scalar_fine mn f Hk) as Hb.
   assert (Hsing : fine ok (match f_nullable f with
-                           | Some true => add_null_type (convert_scalar sc sd mn f)
+                           | Some true => make_nullable (convert_scalar sc sd mn f)
                            | _ => if is_msg_kind (f_kind f) && match f_empty f with Some EBNull => true | _ => false end
                                   then YMap [(s "oneOf", YSeq [convert_scalar sc sd mn f; YMap [(s "type", ystr "null")]])]
                                   else convert_scalar sc sd mn f
@@ -317,7 +348,7 @@ Proof.
       apply fine_map_plain. apply Forall_cons; [|apply Forall_nil]. split; [reflexivity|].
       apply good_seq. apply Forall_cons; [exact (proj1 Hb)|]. apply Forall_cons; [|apply Forall_nil].
       apply good_nil. reflexivity. }
-    destruct (f_nullable f) as [[|]|]; [now apply add_null_type_fine|exact Hone|exact Hone]. }
+    destruct (f_nullable f) as [[|]|]; [now apply make_nullable_fine|exact Hone|exact Hone]. }
   unfold convert_field. destruct (f_card f) as [| | |key].
   - exact Hsing.
   - exact Hsing.
